@@ -3,3 +3,4 @@ import FlVerif.Props.C04
 import FlVerif.Props.C05
 import FlVerif.Props.C12
 import FlVerif.Props.C20
+import FlVerif.Props.C18
